@@ -6,7 +6,7 @@ CONSTANTS
   AllowReg = FALSE
   CopyOpts = TRUE
   TightCap = TRUE
-  CopyArgs = FALSE
+  CopyArgs = TRUE
   HtmlDep = TRUE
 VIEW View
 INVARIANT SharedReadOnly
